@@ -170,9 +170,11 @@ def expected_safe(I, op):
     return op.ci.rel in SCOPE_FILES
 
 
-def run(rep, model):
+def run(rep, model, rule='R3', kinds=None, floor=80):
     n = 0
     for kind, name, Hcls, Icls, b, entries in _instances(model):
+        if kinds is not None and kind not in kinds:
+            continue
         rel, line = _where(model, name.replace('expr:', ''))
         cons = '%s:%s' % (kind, name)
         if kind != 'proximal':
@@ -187,13 +189,13 @@ def run(rep, model):
         try:
             r = evaluate(model, Hcls, Icls, b, entries)
         except (Undecided, Fork) as e:
-            rep.undecided('R3', cons, str(e), rel)
+            rep.undecided(rule, cons, str(e), rel)
             continue
         except NotAnElement as e:
-            rep.violation('R3', cons, 'a call yields no element: %s' % e, rel)
+            rep.violation(rule, cons, 'a call yields no element: %s' % e, rel)
             continue
         except PyRaise as e:
-            rep.violation('R3', cons, 'raises %s at `%s`' % (
+            rep.violation(rule, cons, 'raises %s at `%s`' % (
                 e.name, ast.unparse(e.node)[:70] if e.node is not None
                 else '?'), rel, getattr(e.node, 'lineno', None))
             continue
@@ -202,8 +204,8 @@ def run(rep, model):
         n += 1
         probs, m = r
         if probs:
-            rep.violation('R3', cons, '; '.join(probs), rel, line)
+            rep.violation(rule, cons, '; '.join(probs), rel, line)
         else:
-            rep.holds('R3', cons, 'op(x, out=x) leaves the %d entries of '
+            rep.holds(rule, cons, 'op(x, out=x) leaves the %d entries of '
                       'op(x) in x' % m)
-    rep.floor('R3', 'aliased evaluations', n, 80)
+    rep.floor(rule, 'aliased evaluations', n, floor)
